@@ -529,6 +529,90 @@ fn g_blocktext(_rng: &mut Rng, n: usize) -> Vec<Case> {
     out
 }
 
+/// One construct at a time grown across the sizes at which an implementation may switch strategy or a
+/// narrow integer may overflow (2^8, 2^12, 2^16, each ±1): lengths of text, CDATA, comments, PI
+/// targets and values, attribute values, element / attribute / prefix / entity names, namespace URIs,
+/// entity values, white-space runs; numbers of children, text fragments, attributes, namespace
+/// declarations, nested scopes, references, entity declarations, lines. What holds for small documents
+/// holds at these sizes (all properties over the arena).
+/// `level` 1: 2^8 and 2^12; 2: also 2^16 for the single-token kinds; `big` = only the 2^16 members of
+/// the counting kinds and of the kinds that go through the decoding loops (run one per process).
+fn g_sizes(level: usize, big: bool) -> Vec<Case> {
+    let mut out = Vec::new();
+    let small: Vec<usize> = vec![255, 256, 257, 4095, 4096, 4097];
+    let large: Vec<usize> = vec![65535, 65536, 65537];
+    let token_sizes: Vec<usize> = if big { vec![] } else if level >= 2 { [small.clone(), large.clone()].concat() } else { small.clone() };
+    let count_sizes: Vec<usize> = if big { large.clone() } else { small.clone() };
+    for &n in &token_sizes {
+        let x = "x".repeat(n);
+        out.push(case(false, format!("<r>{}</r>", x)));
+        out.push(case(false, format!("<r><![CDATA[{}]]></r>", x)));
+        out.push(case(false, format!("<r><!--{}--></r>", x)));
+        out.push(case(false, format!("<!--{}--><r/><!--{}-->", x, x)));
+        out.push(case(false, format!("<r><?p {}?></r>", x)));
+        out.push(case(false, format!("<?{} v?><r/>", x)));
+        out.push(case(false, format!("<r a='{}' b='w'/>", x)));
+        out.push(case(false, format!("<{} a='1'>t</{}>", x, x)));
+        out.push(case(false, format!("<{}/>", x)));
+        out.push(case(false, format!("<{}:a xmlns:{}='u' {}:b='1'/>", x, x, x)));
+        out.push(case(false, format!("<p:{} xmlns:p='u'/>", x)));
+        out.push(case(false, format!("<r {}='v' b='w'/>", x)));
+        out.push(case(false, format!("<r xmlns='{}' xmlns:p='{}y'><p:a/></r>", x, x)));
+        out.push(case(true, format!("<!DOCTYPE r [<!ENTITY e '{}'>]><r a='&e;'>&e;</r>", x)));
+        out.push(case(true, format!("<!DOCTYPE r [<!ENTITY {} 'v'>]><r a='&{};'>&{};</r>", x, x, x)));
+        let sp = " ".repeat(n);
+        out.push(case(false, format!("<r{}a='1'{}b='2'{}/>", sp, sp, sp)));
+        out.push(case(false, format!("<?xml version='1.0'?>{}<r/>{}", sp, sp)));
+        out.push(case(false, format!("<r></r{}>", sp)));
+        out.push(case(true, format!("<!DOCTYPE{}r{}[{}]{}><r/>", sp, sp, sp, sp)));
+        // an error far to the right / a value just below the size followed by something to decode
+        out.push(case(false, format!("<r>{}<</r>", x)));
+        out.push(case(false, format!("<r a='{}<'/>", x)));
+    }
+    let decode_sizes: Vec<usize> = if big { large.clone() } else { small.clone() };
+    for &n in &decode_sizes {
+        let x = "x".repeat(n - 1);
+        out.push(case(false, format!("<r>&amp;{}</r>", x)));
+        out.push(case(false, format!("<r>{}\r</r>", x)));
+        out.push(case(false, format!("<r>{}&#xE9;</r>", x)));
+        out.push(case(false, format!("<r a='{}\t'/>", x)));
+        out.push(case(false, format!("<r a='&lt;{}'/>", x)));
+        out.push(case(false, format!("<r><![CDATA[{}\r]]></r>", x)));
+        out.push(case(true, format!("<!DOCTYPE r [<!ENTITY e '{}\r\n'>]><r a='&e;'>&e;</r>", x)));
+    }
+    for &n in &count_sizes {
+        out.push(case(false, format!("<r>{}</r>", "<a/>".repeat(n))));
+        out.push(case(false, format!("<r>{}</r>", "t<a/>".repeat(n))));
+        out.push(case(false, format!("<r>{}</r>", "x<![CDATA[y]]>".repeat(n))));
+        out.push(case(false, format!("<r>{}</r>", "<!--c--><?p?>".repeat(n))));
+        out.push(case(false, format!("{}<r/>{}", "<!--c-->".repeat(n), "<?p?>".repeat(n))));
+        out.push(case(false, format!("<r>{}</r>", "&amp;".repeat(n))));
+        out.push(case(false, format!("<r a='{}'/>", "&#65;".repeat(n))));
+        out.push(case(true, format!("<!DOCTYPE r [<!ENTITY e 'v'>]><r a='{}'>{}</r>", "&e;".repeat(n), "&e;".repeat(n))));
+        out.push(case(true, format!("<!DOCTYPE r [<!ENTITY e '<i/>'>]><r>{}</r>", "&e;".repeat(n))));
+        out.push(case(false, format!("<r>{}</r>", "a\n".repeat(n))));
+        out.push(case(false, format!("{}<r/", "\n".repeat(n))));
+        out.push(case(false, format!("<r>{}<</r>", "\r\n".repeat(n))));
+        if n <= 4097 || big {
+            out.push(case(false, format!("{}{}", "<a>".repeat(n), "</a>".repeat(n))));
+            out.push(case(false, format!("{}t{}", "<a b='1'>".repeat(n), "</a>".repeat(n))));
+        }
+        if n <= 4097 {
+            out.push(case(false, format!("<r {}/>", (0..n).map(|i| format!("a{}='{}'", i, i)).collect::<Vec<_>>().join(" "))));
+            out.push(case(false, format!("<r {} a0='dup'/>", (0..n).map(|i| format!("a{}='{}'", i, i)).collect::<Vec<_>>().join(" "))));
+            out.push(case(false, format!("<r {}><p7:c p9:d='1'/></r>", (0..n).map(|i| format!("xmlns:p{}='u{}'", i, i)).collect::<Vec<_>>().join(" "))));
+            let decls: String = (0..n).map(|i| format!("<!ENTITY e{} 'v{}'>", i, i)).collect();
+            out.push(case(true, format!("<!DOCTYPE r [{}<!ENTITY e0 'again'>]><r a='&e0;&e{};'>&e0;&e{};&e{};</r>", decls, n - 1, n - 1, n / 2)));
+            // nested namespace scopes: n elements each redeclaring the same prefix
+            if n <= 257 {
+                let open: String = (0..n).map(|i| format!("<p:a xmlns:p='u{}'>", i % 3)).collect();
+                out.push(case(false, format!("{}{}", open, "</p:a>".repeat(n))));
+            }
+        }
+    }
+    out
+}
+
 /// Text and attribute values as piece sequences in every order and adjacency (C04 / C05),
 /// at first / middle / last position among siblings.
 fn g_pieces2(_rng: &mut Rng, n: usize, attr: bool) -> Vec<Case> {
@@ -598,6 +682,8 @@ pub fn gen(name: &str, rng: &mut Rng, n: usize, _args: &[String]) -> Vec<Case> {
         "entnames" => g_entnames(rng, n),
         "longattr" => g_longattr(rng, n),
         "manyents" => g_manyents(rng, n),
+        "sizes" => g_sizes(n, false),
+        "sizes-big" => g_sizes(3, true),
         "blocktext" => g_blocktext(rng, n),
         "pieces2-text" => g_pieces2(rng, n, false),
         "pieces2-attr" => g_pieces2(rng, n, true),
